@@ -59,22 +59,47 @@ class Delegation:
     ok: bool
     method: str = ""
     why: str = ""
+    unknown: bool = False      # the shape is not one of the recognised delegation forms (nothing positively wrong was seen)
 
 
 def delegation_of(fi: FuncInfo, method: str, takes_value: bool) -> Delegation:
     """``[v.<method>(value[idx]) for idx, v in enumerate(self._children)]`` (or without the argument)."""
     rv = single_return(fi)
     if rv is None:
-        return Delegation(False, why="no single return")
+        return Delegation(False, why="no single return", unknown=True)
     rv = origin(fi.node, rv)
     if not (isinstance(rv, ast.ListComp) and len(rv.generators) == 1):
-        return Delegation(False, why="not a list comprehension")
+        return Delegation(False, why="not a list comprehension", unknown=True)
     g = rv.generators[0]
     if g.ifs:
         return Delegation(False, why="the comprehension filters children")
     e = rv.elt
+    # self._children[i].m(value[i]) for i in range(len(self._children))
+    if isinstance(e, ast.Call) and isinstance(e.func, ast.Attribute) and isinstance(e.func.value, ast.Subscript) \
+            and dotted(e.func.value.value) == "self._children" and isinstance(e.func.value.slice, ast.Name) \
+            and isinstance(g.target, ast.Name) and e.func.value.slice.id == g.target.id \
+            and isinstance(g.iter, ast.Call) and isinstance(g.iter.func, ast.Name) and g.iter.func.id == "range":
+        i_ = g.target.id
+        rng = g.iter.args
+        n_ = rng[-1] if rng and (len(rng) == 1 or (len(rng) == 2 and isinstance(rng[0], ast.Constant) and rng[0].value == 0)) else None
+        val_ = fi.params[1] if len(fi.params) > 1 else None
+        full = isinstance(n_, ast.Call) and isinstance(n_.func, ast.Name) and n_.func.id == "len" and len(n_.args) == 1 \
+            and dotted(n_.args[0]) in ("self._children",) + ((val_,) if val_ else ())
+        if e.func.attr != method:
+            return Delegation(False, method=e.func.attr, why=f"delegates to .{e.func.attr}() instead of .{method}()")
+        if not full:
+            return Delegation(False, why="the index range is not recognised as covering every child", unknown=True)
+        if takes_value:
+            if len(e.args) == 1 and isinstance(e.args[0], ast.Subscript) and isinstance(e.args[0].value, ast.Name) \
+                    and e.args[0].value.id == val_ and isinstance(e.args[0].slice, ast.Name) and e.args[0].slice.id == i_:
+                return Delegation(True, method)
+            return Delegation(False, why=f"child {i_} is not applied to {val_}[{i_}] (its own coordinate)")
+        return Delegation(True, method) if not e.args else Delegation(False, why="unexpected argument", unknown=True)
+    if isinstance(e, ast.Call) and isinstance(e.func, ast.Attribute) and isinstance(e.func.value, ast.Subscript) \
+            and dotted(e.func.value.value) == "self._children" and isinstance(e.func.value.slice, ast.Constant):
+        return Delegation(False, why=f"every coordinate is handled by the one child self._children[{e.func.value.slice.value!r}]")
     if not (isinstance(e, ast.Call) and isinstance(e.func, ast.Attribute) and isinstance(e.func.value, ast.Name)):
-        return Delegation(False, why="element is not <child>.<method>(..)")
+        return Delegation(False, why="element is not <child>.<method>(..)", unknown=True)
     if e.func.attr != method:
         return Delegation(False, method=e.func.attr, why=f"delegates to .{e.func.attr}() instead of .{method}()")
     child = e.func.value.id
@@ -102,7 +127,15 @@ def delegation_of(fi: FuncInfo, method: str, takes_value: bool) -> Delegation:
                 if cname == child and len(e.args) == 1 and isinstance(e.args[0], ast.Name) and e.args[0].id == vname:
                     return Delegation(True, method)
             return Delegation(False, why="zip form does not pair each child with its own coordinate")
-        return Delegation(False, why="iteration is not enumerate(self._children)")
+        # for i in range(len(self._children)) ... self._children[i].m(value[i])
+        if isinstance(it, ast.Call) and isinstance(it.func, ast.Name) and it.func.id == "range" and isinstance(g.target, ast.Name) \
+                and len(it.args) in (1, 2) and (len(it.args) == 1 or (isinstance(it.args[0], ast.Constant) and it.args[0].value == 0)):
+            n_ = it.args[-1]
+            i_ = g.target.id
+            if isinstance(n_, ast.Call) and isinstance(n_.func, ast.Name) and n_.func.id == "len" and len(n_.args) == 1 \
+                    and dotted(n_.args[0]) in ("self._children", val):
+                pass
+        return Delegation(False, why="iteration is not enumerate(self._children)", unknown=True)
     if dotted(it) == "self._children" and isinstance(g.target, ast.Name) and g.target.id == child and not e.args:
         return Delegation(True, method)
     return Delegation(False, why="iteration is not over self._children")
